@@ -50,6 +50,10 @@ class FileLike(object):
     def tell(self):
         return self.pos
 
+    def seekable(self):
+        # zipfile (Python 3.7+) asks before reading a member
+        return True
+
     def read(self, n=-1):
         if self.buflist:
             self.buf += self.null.join(self.buflist)
